@@ -33,7 +33,10 @@ Expected(c) == [s \in {SlotName(x) : x \in Slots} |->
                   IN Provider(c.keys, x[1], x[2], s \in c.rrel)]
 
 \* registered RREL strings: what the table holds after register_scope_providers, per (expression)
-Exprs == {"defs", "pkgs.defs", "^defs", "^pkgs*.defs", "pkgs*.defs", "..defs", "^defs,pkgs.defs", "parent(Pkg).defs", "pkgs.pkgs.defs"}
+\* (+m: expressions make the provider a model loader as well: the files named by importURI attributes
+\*  are loaded before resolution starts -- equal providers, hence equal behaviour there too)
+Exprs == {"defs", "pkgs.defs", "^defs", "^pkgs*.defs", "pkgs*.defs", "..defs", "^defs,pkgs.defs", "parent(Pkg).defs", "pkgs.pkgs.defs",
+          "+m:defs", "+m:pkgs.defs", "+m:^pkgs*.defs"}
 StringCase(e) == [expr |-> e, registered |-> Registered([kind |-> "string", expr |-> e]), grammar |-> GrammarRrel(e)]
 
 VARIABLE c
